@@ -278,6 +278,14 @@ pub struct Dev {
     pub mutation: Mutation,
 }
 
+/// A path that ends at an optional value addresses the value inside it (when present).
+fn leaf_mut(v: &mut V) -> &mut V {
+    match v {
+        V::Opt(Some(x)) => leaf_mut(x),
+        other => other,
+    }
+}
+
 fn node_mut<'a>(v: &'a mut V, s: &Sch, path: &[usize]) -> Option<(&'a mut V, Sch)> {
     if path.is_empty() {
         return Some((v, s.clone()));
@@ -316,14 +324,14 @@ pub fn apply_tree(
     match m {
         Mutation::Flip { path } => {
             let (nd, _) = node_mut(&mut v, sch, path)?;
-            match nd {
+            match leaf_mut(nd) {
                 V::Bool(b) | V::U8(b) => *b ^= 1,
                 _ => return None,
             }
         }
         Mutation::XorBit { path, bit } => {
             let (nd, _) = node_mut(&mut v, sch, path)?;
-            match nd {
+            match leaf_mut(nd) {
                 V::U128(x) => *x ^= 1u128 << (bit % 128),
                 V::Arr(b) | V::Bytes(b) => {
                     if b.is_empty() {
